@@ -13,6 +13,8 @@
    `frel_fl fl m e f` holds exactly when f is that double. *)
 From Coq Require Import String Ascii.
 Require Import Hdl21.Base.PyInt Hdl21.Spec.SimSpec Hdl21.Model.SimExport Hdl21.Proofs.C17Proofs.
+Require Import Hdl21.Base.Dec Hdl21.Model.C17Float Hdl21.Proofs.C17NearestProofs Hdl21.Proofs.C17FloatProofs.
+Require Import Hdl21.Proofs.C17RoundProofs.
 Require Import Hdl21Gen.C17Tables.
 Open Scope list_scope.
 Open Scope Z_scope.
@@ -235,6 +237,128 @@ Proof. exact (export_all_accepts l). Qed.
 Print Assumptions C17_accepts.
 
 (* ------------------------------------------------------------------------------------------ *)
+(* 10. float fields, concretely (strengthening round).  Model/C17Float.v models the mechanism the theorems above leave
+       to the variable `fl`: export_float's type dispatch, float(Prefixed) = float(self.scale(UNIT).number) with the
+       power of ten applied in the exact decimal context, one call of CPython's float() (`rnd`).                     *)
+(* ------------------------------------------------------------------------------------------ *)
+
+(* the specification's "nearest double" is about the VALUE: every way of writing m*10^e gives the same verdict ... *)
+Theorem C17_nearest_double_value a ea b eb e d : e <= ea -> e <= eb -> a * 10 ^ (ea - e) = b * 10 ^ (eb - e) ->
+  nearest_double a ea d = nearest_double b eb d.
+Proof. exact (nearest_double_same_value a ea b eb e d). Qed.
+Print Assumptions C17_nearest_double_value.
+
+(* ... and it determines the double: a float field has exactly one right content (rounding intervals of neighbouring
+   doubles do not overlap and a shared midpoint belongs to the even one; overflow excludes every finite double) *)
+Theorem C17_nearest_double_unique m e d d' : nearest_double m e d = true -> nearest_double m e d' = true -> d = d'.
+Proof. exact (nearest_double_unique m e d d'). Qed.
+Print Assumptions C17_nearest_double_unique.
+
+(* export_float on any Scalar of a Sim, for ANY float() function rnd: a Prefixed of any number of digits and any prefix
+   is never refused and rnd is applied exactly once, to a Decimal d denoting exactly number * 10^prefix
+   (d = dint d * 10^dexp d = nm * 10^(ne+pe)); a Literal is the only refused Scalar *)
+Theorem C17_export_float_one_rounding (rnd : dec -> dbl) x :
+  match x with
+  | NPre nm ne pe =>
+      exists d, export_float rnd x = Ok (rnd d) /\ dexp d <= ne + pe /\ dint d = nm * 10 ^ (ne + pe - dexp d)
+  | NLit _ => export_float rnd x = Error EBadKind
+  end.
+Proof. exact (export_float_one_rounding rnd x). Qed.
+Print Assumptions C17_export_float_one_rounding.
+
+(* hence: when float() rounds the Decimal it is given correctly, every exported numeric field IS the double nearest to
+   the prefixed value (the relation num_ok frel_nearest that the correspondence run evaluates on the implementation) *)
+Theorem C17_export_float_nearest (rnd : dec -> dbl) :
+  (forall d, nearest_double (dint d) (dexp d) (rnd d) = true) ->
+  forall x f, export_float rnd x = Ok f -> num_ok frel_nearest x (FDbl f) = true.
+Proof. exact (export_float_nearest rnd). Qed.
+Print Assumptions C17_export_float_nearest.
+
+(* the code is the exact-context instance of the conversion parametrised by the precision of the decimal context in
+   which number * Decimal(10) ** prefix is evaluated *)
+Theorem C17_export_float_ctx_exact (rnd : dec -> dbl) x : export_float_ctx rnd None x = export_float rnd x.
+Proof. exact (export_float_ctx_none rnd x). Qed.
+Print Assumptions C17_export_float_ctx_exact.
+
+(* the default context refutes the property: evaluating the product in 28 digits and then calling a correctly rounding
+   float() puts 1.0000000000000002 into the field of a 54-digit value whose nearest double is 1.0 (just below the
+   midpoint 1 + 2^-53), written with the UNIT or with the MILLI prefix - whatever correctly rounding float() is used *)
+Definition w28_unit : num := NPre 100000000000000011102230246251565404236306680908203125 (-53) 0.
+Definition w28_milli : num := NPre 100000000000000011102230246251565404236306680908203125 (-50) (-3).
+Theorem C17_export_float_ctx28_refuted (rnd : dec -> dbl) :
+  (forall d, nearest_double (dint d) (dexp d) (rnd d) = true) ->
+  forall w, w = w28_unit \/ w = w28_milli ->
+    export_float_ctx rnd (Some 28) w = Ok (DFin false 4503599627370497 (-52)) /\
+    num_ok frel_nearest w (FDbl (DFin false 4503599627370497 (-52))) = false /\
+    export_float rnd w = Ok (DFin false 4503599627370496 (-52)) /\
+    num_ok frel_nearest w (FDbl (DFin false 4503599627370496 (-52))) = true.
+Proof.
+  intros HN w Hw.
+  assert (forall r d, nearest_double (dint r) (dexp r) d = true -> rnd r = d) as U
+    by (intros r d H; exact (nearest_double_unique _ _ _ _ (HN r) H)).
+  destruct Hw as [-> | ->]; (split; [|split; [vm_compute; reflexivity|split; [|vm_compute; reflexivity]]]).
+  - unfold export_float_ctx, w28_unit. f_equal.
+    assert (unit_number_ctx (Some 28) (num_pfx 100000000000000011102230246251565404236306680908203125 (-53) 0)
+            = of_int 1000000000000000111022302463 (-27)) as -> by (vm_compute; reflexivity).
+    apply U. vm_compute. reflexivity.
+  - unfold w28_unit. rewrite export_float_pre. f_equal. apply U. vm_compute. reflexivity.
+  - unfold export_float_ctx, w28_milli. f_equal.
+    assert (unit_number_ctx (Some 28) (num_pfx 100000000000000011102230246251565404236306680908203125 (-50) (-3))
+            = of_int 1000000000000000111022302463 (-27)) as -> by (vm_compute; reflexivity).
+    apply U. vm_compute. reflexivity.
+  - unfold w28_milli. rewrite export_float_pre. f_equal. apply U. vm_compute. reflexivity.
+Qed.
+Print Assumptions C17_export_float_ctx28_refuted.
+
+(* the exporter with concrete float fields (Model/C17Float.v: export_all_c) is the symbolic exporter with every
+   `FDec m e` replaced by the double rnd returns for that value ... *)
+Definition rmap {A B} (f : A -> B) (r : result A) : result B := match r with Ok a => Ok (f a) | Error e => Error e end.
+Theorem C17_export_concrete_refines (rnd : dec -> dbl) l :
+  (forall d, nearest_double (dint d) (dexp d) (rnd d) = true) ->
+  export_all_c rnd l = rmap (map (map_si (conc (fl_of rnd)))) (export_all l).
+Proof. intros HN. exact (export_all_c_sim rnd HN l). Qed.
+Print Assumptions C17_export_concrete_refines.
+
+(* ... hence the whole property for the concrete exporter: complete, faithful, every numeric field the nearest double *)
+Theorem C17_export_concrete_meets_spec (rnd : dec -> dbl) l :
+  (forall d, nearest_double (dint d) (dexp d) (rnd d) = true) -> hier_wf l = true ->
+  spec_all frel_nearest l (to_option (export_all_c rnd l)) = true.
+Proof.
+  intros HN HW. rewrite (export_all_c_sim rnd HN l).
+  pose proof (C17_export_nearest (fl_of rnd) l (fl_of_near rnd HN) HW) as H.
+  destruct (export_all l); exact H.
+Qed.
+Print Assumptions C17_export_concrete_meets_spec.
+
+(* 11. the nearest double exists and is computed: round_dbl (Model/C17Float.v: scaling to units of 2^-1076, binade from the
+       bit length, half-even on quotient and remainders, renormalisation, overflow) satisfies the specification for EVERY
+       decimal - normal, subnormal, zero, overflowing, negative.  With uniqueness: nearest_double m e is the graph of
+       round_dbl, and every correctly rounding float() IS round_dec.  The hypothesis of the theorems of section 10 is
+       therefore satisfiable, and the concrete exporter with round_dec has no hypothesis left but hier_wf. *)
+Theorem C17_round_dbl_nearest m e : nearest_double m e (round_dbl m e) = true.
+Proof. exact (round_dbl_nearest m e). Qed.
+Print Assumptions C17_round_dbl_nearest.
+
+Theorem C17_nearest_double_function m e d : nearest_double m e d = true <-> d = round_dbl m e.
+Proof. exact (nearest_double_iff m e d). Qed.
+Print Assumptions C17_nearest_double_function.
+
+Theorem C17_correct_float_is_round_dec (rnd : dec -> dbl) :
+  (forall d, nearest_double (dint d) (dexp d) (rnd d) = true) -> forall d, rnd d = round_dec d.
+Proof. intros HN d. apply (nearest_double_iff (dint d) (dexp d)). apply HN. Qed.
+Print Assumptions C17_correct_float_is_round_dec.
+
+Theorem C17_export_computed_meets_spec l : hier_wf l = true ->
+  spec_all frel_nearest l (to_option (export_all_c round_dec l)) = true.
+Proof. apply C17_export_concrete_meets_spec. intros d. apply round_dbl_nearest. Qed.
+Print Assumptions C17_export_computed_meets_spec.
+
+(* every float field the computed exporter emits is a concrete double (no symbol is left) *)
+Theorem C17_export_float_computed x f : export_float round_dec x = Ok f -> num_ok frel_nearest x (FDbl f) = true.
+Proof. apply C17_export_float_nearest. intros d. apply round_dbl_nearest. Qed.
+Print Assumptions C17_export_float_computed.
+
+(* ------------------------------------------------------------------------------------------ *)
 (* non-vacuity: concrete, non-trivial instances                                                *)
 (* ------------------------------------------------------------------------------------------ *)
 Open Scope string_scope.
@@ -322,3 +446,44 @@ Example C17_ex_class :
   Some [AtAn (ATran (NPre 1 0 (-9)) None (Some "mytran")); AtOpt "reltol" (VNum (NPre 1 (-9) 0)); AtAn (AOp None);
         AtCtrl (CSave (TMode MAll)); AtCtrl (CLiteral ".x")].
 Proof. vm_compute. reflexivity. Qed.
+
+(* strengthening round: the Decimal handed to float() for 3.3*n, 11*K and a 54-digit value; it denotes the value exactly *)
+Example C17_ex_unit_dec :
+  unit_dec 33 (-1) (-9) = of_int 33 (-10) /\ unit_dec 11 0 3 = of_int 11000 0 /\
+  unit_dec 100000000000000011102230246251565404236306680908203125 (-50) (-3) =
+    of_int 100000000000000011102230246251565404236306680908203125 (-53) /\
+  nearest_double 33 (-10) (DFin false 7978910409456553 (-81)) = true /\
+  nearest_double 33 (-10) (DFin false 7978910409456554 (-81)) = false.
+Proof. vm_compute. repeat split. Qed.
+
+(* the hypotheses of C17_nearest_double_value / _unique on non-trivial data: 1.50*10^3 = 1500, and the nearest double
+   of 0.1 is accepted while both of its neighbours are refused *)
+Example C17_ex_nearest :
+  (-2 <= -2 /\ -2 <= 0 /\ 150 * 10 ^ (1 - -2) = 1500 * 10 ^ (0 - -2)) /\
+  nearest_double 1 (-1) (DFin false 7205759403792794 (-56)) = true /\
+  nearest_double 1 (-1) (DFin false 7205759403792793 (-56)) = false /\
+  nearest_double 1 (-1) (DFin false 7205759403792795 (-56)) = false.
+Proof. vm_compute. repeat split; discriminate. Qed.
+
+(* round_dbl on the corners: 0.1, the smallest subnormal and the tie below it (to even: 0), just above that tie, the
+   largest double, the overflow threshold (tie: to infinity) and just below it, a negative overflow, zero, and the
+   54-digit value of C17_export_float_ctx28_refuted *)
+Example C17_ex_round_dbl :
+  round_dbl 1 (-1) = DFin false 7205759403792794 (-56) /\
+  round_dbl 5 (-324) = DFin false 1 (-1074) /\
+  round_dbl 24703282292062327208 (-343) = DFin false 0 (-1074) /\
+  round_dbl 24703282292062327209 (-343) = DFin false 1 (-1074) /\
+  round_dbl 17976931348623157 292 = DFin false 9007199254740991 971 /\
+  round_dbl (2 ^ 1024 - 2 ^ 970) 0 = DInf false /\
+  round_dbl (2 ^ 1024 - 2 ^ 970 - 1) 0 = DFin false 9007199254740991 971 /\
+  round_dbl (-1) 400 = DInf true /\ round_dbl 0 7 = DFin false 0 (-1074) /\
+  export_float round_dec w28_milli = Ok (DFin false 4503599627370496 (-52)) /\
+  export_float_ctx round_dec (Some 28) w28_milli = Ok (DFin false 4503599627370497 (-52)).
+Proof. vm_compute. repeat split. Qed.
+
+(* the computed exporter on the example Sims: accepted, and the nanosecond transient carries the double nearest to 1e-9 *)
+Example C17_ex_computed :
+  hier_wf ex_sims = true /\
+  option_map (fun outs => map (fun o => hd (OOp "") (o_an o)) outs) (to_option (export_all_c round_dec ex_sims)) =
+  Some [OTran "Analysis0" (FDbl (DFin false 4835703278458517 (-82))) (FDbl (DFin false 0 (-1074))); OOp "Analysis0"; OOp ""].
+Proof. vm_compute. split; reflexivity. Qed.
